@@ -474,21 +474,43 @@ def all_statements(body: Sequence[N]) -> Iterator[N]:
             yield from all_statements([st.stmt])
 
 
+def _always_exits(body: Sequence[N]) -> bool:
+    """The block cannot fall through: it ends in LEAVE / ITERATE / SIGNAL / RESIGNAL / RETURN, or in an IF all of whose branches
+    (ELSE included) do."""
+    if not body:
+        return False
+    last = body[-1]
+    if last.kind in ('leave', 'iterate', 'signal', 'resignal', 'return'):
+        return True
+    if last.kind == 'if':
+        return last.orelse is not None and all(_always_exits(b) for _, b in last.branches) and _always_exits(last.orelse)
+    return False
+
+
 def guarded_statements(body: Sequence[N], guard: Tuple[Tuple[N, bool], ...] = ()) -> Iterator[Tuple[N, Tuple[Tuple[N, bool], ...]]]:
-    """(statement, path condition) where the path condition is a tuple of (IF-predicate, polarity)."""
+    """(statement, path condition) where the path condition is a tuple of (IF-predicate, polarity).
+    Early exits are honoured: after `IF c THEN ... LEAVE l; END IF;` (or SIGNAL / RETURN / ITERATE) the remaining statements of the same
+    block run only when c was false, so they carry (c, False) -- the guard-clause spelling of `IF NOT c THEN <rest> END IF`."""
+    extra: Tuple[Tuple[N, bool], ...] = ()
     for st in body:
+        g = guard + extra
         if st.kind == 'if':
             neg: Tuple[Tuple[N, bool], ...] = ()
+            single_exit = len(st.branches) == 1 and st.orelse is None and _always_exits(st.branches[0][1])
             for c, b in st.branches:
-                yield from guarded_statements(b, guard + neg + ((c, True),))
+                yield from guarded_statements(b, g + neg + ((c, True),))
                 neg = neg + ((c, False),)
             if st.orelse is not None:
-                yield from guarded_statements(st.orelse, guard + neg)
+                yield from guarded_statements(st.orelse, g + neg)
+            if single_exit:
+                extra = extra + ((st.branches[0][0], False),)
+            elif st.orelse is None and st.branches and all(_always_exits(b) for _, b in st.branches):
+                extra = extra + neg  # IF a THEN exit ELSEIF b THEN exit END IF: the rest runs under NOT a AND NOT b
         elif st.kind in ('loop', 'while', 'block'):
-            yield st, guard
-            yield from guarded_statements(st.body, guard)
+            yield st, g
+            yield from guarded_statements(st.body, g)
         else:
-            yield st, guard
+            yield st, g
 
 
 def subst(e: Any, f: Callable[[N], Optional[N]]) -> Any:
